@@ -16,7 +16,7 @@ THEOREMS = [{'name': f'Props.C12.{n}', 'module': M} for n in [
     'C12_files', 'C12_renumbering', 'C12_pipeline_partial', 'C12_sections_partial',
     'C12_validate_never_fires_after_renumbering', 'C12_dup_rejected_when_validated_first', 'C12_no_false_rejection',
     'C12_F1_or_fixed', 'C12_F1_witness_silently_merged', 'C12_F1_witness_statement_lost', 'C12_F2_or_fixed',
-    'C12_F2_witness']]
+    'C12_F2_witness', 'C12_current_order', 'C12_dup_rejected_current', 'C12_current_guard', 'C12_stable_current']]
 RULE = ('pools of 1-5 triples maps of the core fragment (classes, subject/POM graph maps, language tags, datatypes) with referencing object '
         'maps (condition-free, same-column and cross-column joins, parents inside / outside the logical source), identifiers sharing '
         'prefixes, over 1-3 CSV sources; the pool is cut into its closed components, the components are dealt to 1-3 data-source sections '
